@@ -16,6 +16,7 @@ import (
 	"sort"
 	"strings"
 	"testing"
+	"unicode/utf8"
 
 	"github.com/prometheus/common/model"
 	"pgregory.net/rapid"
@@ -321,8 +322,26 @@ func checkDiags(c Case, lines []string) (int, error) {
 					wantCols[p.col] = true
 				}
 			}
+			// the caret row has one cell per character of the line (not per byte): translate the byte
+			// columns into character cells; a character is underlined when any of its bytes is selected
 			if !isASCII(lines[lastLine-1]) {
-				continue
+				text := lines[lastLine-1]
+				cells := map[int]bool{}
+				cell := 0
+				for bi, r := range text {
+					cell++
+					n := utf8.RuneLen(r)
+					if r == utf8.RuneError {
+						n = 1
+					}
+					for k := 0; k < n; k++ {
+						if wantCols[bi+k+1] {
+							cells[cell] = true
+						}
+					}
+				}
+				wantCols = cells
+				rec_nonascii++
 			}
 			gotCols, err := caretCols(out, lastLine, d.Message)
 			if err != nil {
@@ -335,6 +354,9 @@ func checkDiags(c Case, lines []string) (int, error) {
 	}
 	return n, nil
 }
+
+// rec_nonascii counts caret rows judged on lines holding multi-byte characters or tabs.
+var rec_nonascii int64
 
 func isASCII(s string) bool {
 	for i := 0; i < len(s); i++ {
@@ -530,6 +552,8 @@ func drive(t *testing.T, opts func() gen.StyleOpts, knownMode bool) {
 		rec.Count("nodes_checked", int64(st.nodes))
 		rec.Count("multi_range_nodes", int64(st.multiline))
 		rec.Count("diagnostics_checked", int64(st.diags))
+		rec.Count("caret_rows_on_non_ascii_lines", rec_nonascii)
+		rec_nonascii = 0
 		for _, tag := range []string{"dq-escape", "dq-backslash-continuation", "blank-in-scalar", "shallow-cont", "header-comment", "literal-blank", "literal-ws-line"} {
 			if slices.Contains(c.Styles, tag) {
 				rec.Count("cases_with:"+tag, 1)
